@@ -53,7 +53,7 @@ def case_strategy():
         nm = len(methods)
         return {"hier": h, "methods": methods, "calls": calls, "perm": list(draw(st.permutations(list(range(nm))))),
                 "salts": draw(st.lists(st.integers(1, 10 ** 6), min_size=3, max_size=3, unique=True)),
-                "extras": draw(st.lists(st.sampled_from(["arity", "class"]), min_size=1, max_size=2)), "kwpool": []}
+                "extras": draw(st.lists(st.sampled_from(["arity", "class", "typeann"]), min_size=1, max_size=2)), "kwpool": []}
 
     @st.composite
     def _case(draw):
@@ -84,7 +84,7 @@ def case_strategy():
         nm = len(ms["methods"])
         perm = draw(st.permutations(list(range(nm))))
         salts = draw(st.lists(st.integers(1, 10 ** 6), min_size=2, max_size=3, unique=True))
-        extras = draw(st.lists(st.sampled_from(["arity", "class", "kw"]), min_size=1, max_size=3))
+        extras = draw(st.lists(st.sampled_from(["arity", "class", "kw", "typeann"]), min_size=1, max_size=3))
         return {"hier": h, "methods": ms["methods"], "calls": calls, "perm": list(perm), "salts": salts,
                 "extras": extras, "kwpool": ms["kwpool"]}
 
@@ -107,8 +107,8 @@ def keep_identical_order(methods, perm):
 
 
 def extra_methods(spec):
-    """methods that cannot apply to any probed call; reuse the case's position names and keyword pool and contain
-    no type[...] annotation (a new name or a generic alias would legitimately change the calling convention)"""
+    """methods that cannot apply to any probed call; they reuse the case's position names and keyword pool (a new
+    name would legitimately change the calling convention)"""
     methods = spec["methods"]
     strict = bool(methods[0]["pos"]) and methods[0]["pos"][0].get("posonly")
     arities = {len(c["args"]) for c in spec["calls"]} | {len(m["pos"]) for m in methods}
@@ -118,6 +118,13 @@ def extra_methods(spec):
         if kind == "arity":
             ar = max(arities) + 1
             pos = [{"name": f"q{nid}_{j}" if strict else f"a{j}", "ann": ["obj"]} for j in range(ar)]
+            kw = []
+        elif kind == "typeann":
+            # a type[...] annotation (switches the lookup of that position to type[x] for class-valued arguments); it
+            # takes class objects only, the probed calls pass instances
+            ar = sorted(arities)[0] or 1
+            pos = [{"name": f"q{nid}_{j}" if strict else f"a{j}", "ann": ["type", ["cls", "KX"]] if j == 0 else ["obj"]}
+                   for j in range(ar)]
             kw = []
         elif kind == "class":
             ar = sorted(arities)[0] or 1
@@ -323,8 +330,7 @@ class Check:
     )
     assumptions = [
         "only outcome kinds / winners are compared, never error texts or candidate listings",
-        "extra methods reuse the case's names and contain no type[...] annotation (those legitimately change the "
-        "calling convention)",
+        "extra methods reuse the case's parameter names (a new name legitimately changes the calling convention)",
     ]
 
     def tasks(self, tier, seed):
